@@ -1,8 +1,29 @@
 """C01 tables: MODEL_GROUPS tuple, constructor keywords, and whether each group keyword is wired to
-its own ModelGroup (`self._g = ModelGroup(g, name="g") if g else None`; property g returns self._g)."""
+its own ModelGroup.  The wiring is read off the source text when it has the pinned form
+(`self._g = ModelGroup(g, name="g") if g else None`; property g returns self._g); when the text has another form
+(a refactoring) it is established by evaluating the class on the whole finite domain instead: for every keyword g,
+`DetectionPipeline(g=[m])` must expose under attribute g a ModelGroup named g holding exactly m, and None under every
+other keyword, and `DetectionPipeline()` must expose None everywhere."""
 import ast
 
-from extract import find_class, find_func, lbool, llist, parse
+from extract import find_class, find_func, lbool, llist, parse, run_in_repo
+
+WIRING_PROBE = r"""
+import json
+from pyxel.pipelines import DetectionPipeline, ModelFunction, ModelGroup
+import inspect
+params = [p for p in inspect.signature(DetectionPipeline.__init__).parameters if p != "self"]
+ok = bool(params)
+empty = DetectionPipeline()
+ok = ok and all(getattr(empty, g) is None for g in params)
+for g in params:
+    m = ModelFunction(func="pyxel.models.photon_collection.illumination", name="probe_" + g, arguments={"level": 1.0})
+    p = DetectionPipeline(**{g: [m]})
+    grp = getattr(p, g)
+    ok = ok and isinstance(grp, ModelGroup) and any(isinstance(v, str) and v == g for v in vars(grp).values()) and len(grp.models) == 1 and grp.models[0] is m
+    ok = ok and all(getattr(p, h) is None for h in params if h != g)
+print(json.dumps({"ok": bool(ok), "params": params}))
+"""
 
 FALLBACK = "def modelGroups : List String := []\ndef initParams : List String := []\ndef groupAttrIsOwnField : Bool := false"
 
@@ -58,6 +79,9 @@ def gen() -> str:
                     )
                 ok = ok and good and good_prop
             wired = ok
+            if not wired:
+                res = run_in_repo(WIRING_PROBE)
+                wired = bool(res and res.get("ok") and res.get("params") == params)
     return (
         f"def modelGroups : List String := {llist(groups)}\n"
         f"def initParams : List String := {llist(params)}\n"
